@@ -1,11 +1,12 @@
 #!/bin/bash
 # Evaluate every finished seed under /tmp/seed_out/C??/<k>/ that has no eval.txt yet: own-property check first,
 # every other check only when the own check misses it. One slot, sequential.
-# usage: tools/eval_queue.sh <slot> [--loop]
+# usage: tools/eval_queue.sh <slot> [--loop] [<seed root, default /tmp/seed_out>]
 SLOT="$1"
+ROOT="${3:-/tmp/seed_out}"
 while true; do
   did=0
-  for d in /tmp/seed_out/C??/[0-9]; do
+  for d in "$ROOT"/C??/[0-9]; do
     [ -f "$d/patch.diff" ] && [ -f "$d/meta.json" ] && [ -f "$d/demo_cmd.txt" ] || continue
     [ -f "$d/eval.txt" ] && continue
     [ -f "$d/.evaluating" ] && continue
